@@ -707,7 +707,7 @@ func checkRegistry(c *core.Ctx) {
 						}
 						owner := guardedBy(b, func(cond ssa.Value) int {
 							bo, ok := cond.(*ssa.BinOp)
-							if !ok || bo.Op != token.EQL {
+							if !ok || (bo.Op != token.EQL && bo.Op != token.NEQ) {
 								return 0
 							}
 							for _, pr := range [][2]ssa.Value{{bo.X, bo.Y}, {bo.Y, bo.X}} {
@@ -716,7 +716,10 @@ func checkRegistry(c *core.Ctx) {
 									continue
 								}
 								if _, isParam := pr[1].(*ssa.Parameter); isParam {
-									return 1
+									if bo.Op == token.EQL {
+										return 1
+									}
+									return -1 // `entry != m` → the delete is on the false branch (early-return form)
 								}
 							}
 							return 0
@@ -726,18 +729,35 @@ func checkRegistry(c *core.Ctx) {
 							"the name is deleted without checking that the registry entry belongs to the instance being removed: closing an instance that failed to register (duplicate name) evicts the live owner, whose name can then be taken by a second open module")
 						// same function must store nil to prev and next of the deleted module
 						clearedPrev, clearedNext := false, false
+						// the function itself and the helpers it calls with the removed instance (extracted unlink step)
+						scope := []*ssa.Function{fn}
 						for _, bb := range fn.Blocks {
 							for _, ii := range bb.Instrs {
-								if st, ok := ii.(*ssa.Store); ok {
-									if fa, ok := st.Addr.(*ssa.FieldAddr); ok {
-										if k, ok := st.Val.(*ssa.Const); ok && k.IsNil() {
-											if _, isParam := fa.X.(*ssa.Parameter); isParam {
-												if s, _ := derefStructT(fa.X.Type()).Underlying().(*types.Struct); s != nil {
-													if s.Field(fa.Field) == prev {
-														clearedPrev = true
-													}
-													if s.Field(fa.Field) == next {
-														clearedNext = true
+								if call, ok := ii.(*ssa.Call); ok {
+									if sc := call.Common().StaticCallee(); sc != nil && sc.Blocks != nil && sc.Pkg == fn.Pkg {
+										for _, a := range call.Common().Args {
+											if _, isParam := a.(*ssa.Parameter); isParam && core.IsNamed(a.Type(), core.Module+"/internal/wasm", "ModuleInstance") {
+												scope = append(scope, sc)
+											}
+										}
+									}
+								}
+							}
+						}
+						for _, sf := range scope {
+							for _, bb := range sf.Blocks {
+								for _, ii := range bb.Instrs {
+									if st, ok := ii.(*ssa.Store); ok {
+										if fa, ok := st.Addr.(*ssa.FieldAddr); ok {
+											if k, ok := st.Val.(*ssa.Const); ok && k.IsNil() {
+												if _, isParam := fa.X.(*ssa.Parameter); isParam {
+													if s, _ := derefStructT(fa.X.Type()).Underlying().(*types.Struct); s != nil {
+														if s.Field(fa.Field) == prev {
+															clearedPrev = true
+														}
+														if s.Field(fa.Field) == next {
+															clearedNext = true
+														}
 													}
 												}
 											}
